@@ -231,6 +231,7 @@ type clRun struct {
 	mutations    int
 	compares     int
 	settled      bool
+	attStarts    map[string]int // address -> rn.starts when the controller attached it
 	settling     bool
 	coldStarts   int
 	idleWindow   bool
@@ -1008,6 +1009,17 @@ func (cr *clRun) onQuiescent() {
 		now[r.Address] = true
 		if !cr.present[r.Address] {
 			cr.epoch[r.Address]++
+			// which process of that replica the controller has just attached: a list entry speaks for
+			// THAT incarnation, not for a later one started (perhaps on a new disk) under the same address
+			// while the controller has not yet noticed that the attached one is dead
+			if cr.attStarts == nil {
+				cr.attStarts = map[string]int{}
+			}
+			for _, rn := range cr.c.reps {
+				if rn.addr == r.Address {
+					cr.attStarts[r.Address] = rn.starts
+				}
+			}
 			if r.Mode == types.WO {
 				cr.woSince[r.Address] = len(cr.ios)
 				if cr.foldsAtWO == nil {
@@ -1625,7 +1637,7 @@ func (cr *clRun) idleImages(advMs int64) map[string]*idleImage {
 			continue
 		}
 		for _, rn := range cr.c.reps {
-			if rn.addr != r.Address || !rn.up {
+			if !cr.serves(rn, r.Address) {
 				continue
 			}
 			img, err := cr.replicaImage(rn)
@@ -1657,7 +1669,7 @@ func (cr *clRun) checkIdleImages(pre map[string]*idleImage) {
 			continue
 		}
 		for _, rn := range cr.c.reps {
-			if rn.addr != r.Address || !rn.up || cr.epoch[rn.addr]*1000+rn.inc != ii.epoch {
+			if !cr.serves(rn, r.Address) || cr.epoch[rn.addr]*1000+rn.inc != ii.epoch {
 				continue
 			}
 			img, err := cr.replicaImage(rn)
@@ -1834,7 +1846,7 @@ func (cr *clRun) settle() {
 			continue
 		}
 		for _, rn := range c.reps {
-			if rn.addr != r.Address || !rn.up {
+			if !cr.serves(rn, r.Address) {
 				continue
 			}
 			img, err := cr.replicaImage(rn)
@@ -1874,6 +1886,15 @@ func (cr *clRun) settle() {
 		}
 	}
 	cr.pump(time.Millisecond, nil)
+}
+
+// serves: rn's running process is the one the controller attached under addr.
+func (cr *clRun) serves(rn *repNode, addr string) bool {
+	if rn.addr != addr || !rn.up {
+		return false
+	}
+	st, ok := cr.attStarts[addr]
+	return !ok || st == rn.starts
 }
 
 // membershipSig: the controller's list plus, per replica process, how often it has been started and
